@@ -20,12 +20,12 @@ NCPU = os.cpu_count() or 8
 
 # property -> configuration
 CHECKS = {
-    "C19": {"engine": "dstr", "variants": ["A"], "quick": 12000, "thorough": 600000,
+    "C19": {"engine": "dstr", "variants": ["A"], "quick": 40000, "thorough": 600000,
             "quick_s": 60, "thorough_s": 540,
             "real": ["src/d_string.c (all 14 public functions)", "glibc malloc/realloc under ASan", "glibc vsnprintf"],
             "stub": ["realloc placement policy (always-move buggify)", "starting capacity (hook H1)"],
             "sim_time": "not meaningful: no clock is read by DString"},
-    "C18": {"engine": "pool", "variants": ["A"], "quick": 2500, "thorough": 60000, "quick_s": 70, "thorough_s": 560,
+    "C18": {"engine": "pool", "variants": ["A"], "quick": 5000, "thorough": 60000, "quick_s": 70, "thorough_s": 560,
             "real": ["src/token.c pool functions", "src/object_pool.c", "the whole parser/writer (conversions and parses)", "glibc malloc under ASan"],
             "stub": ["slab size (hook H2)", "DString starting capacity (hook H1)", "realloc placement", "clock and libc rand() (simulated, per operation)"],
             "expect_probes": ["inspect_after_inner_drain", "slab_crossed", "reinit_after_free", "depth_ge_3", "nested_init"],
